@@ -1,6 +1,6 @@
 """Reference data for the plotting functions (property C20): what is handed to the drawing primitives."""
 import numpy as np
-from bycycle.utils import limit_df, limit_signal
+from .frames import limit_table
 
 
 def burst_mask(S, n_samples, fs, start, side):
@@ -18,8 +18,8 @@ def marker_series(sig, times, fs, points):
     return times[cps], sig[cps]
 
 
-def panel_cycles(S, fs, xlim, side):
+def panel_cycles(S, fs, xlim, side, centre):
     """the cycles shown in a parameter panel: inside the window, re-indexed to it"""
-    S = limit_df(S, fs, start=xlim[0], stop=xlim[1])
+    S = limit_table(S, fs, xlim[0], xlim[1], True, centre)
     S = S[(S['sample_last_' + side] >= 0) & (S['sample_next_' + side] < xlim[1] * fs)]
     return S
